@@ -42,9 +42,9 @@ func (g *gen) keyTable(n int, simple bool) []string {
 		case 3:
 			ks = append(ks, base+g.rbytes(pick(g, 1, 36, 155, 156, 300), false))
 		case 4:
-			// a long key whose encoding is a whole number of fragments, and an extension of it
-			k := g.rbytes(216, g.chance(50))
-			ks = append(ks, k, k+g.rbytes(pick(g, 1, 36, 100), false))
+			// a long key (whatever the fragment size, some lengths fill the last fragment exactly) and an extension of it
+			k := g.rbytes(192+g.IntN(400), g.chance(50))
+			ks = append(ks, k, k+g.rbytes(pick(g, 1, 35, 36, 47, 100), false))
 		case 5:
 			ks = append(ks, "http://a.test/r"+g.rbytes(3, true)+"#"+pick(g, "0", "123456789"))
 		case 6:
@@ -59,6 +59,8 @@ func (g *gen) keyTable(n int, simple bool) []string {
 			ks = append(ks, pick(g, ".", "..", "a/b", "a/../b", "/", "\x00", "key with space", "ünïcödé", "%2F%2f", "a\nb"))
 		case 11:
 			ks = append(ks, strings.Repeat("A", pick(g, 36, 72, 191, 192, 1000)))
+		case 12:
+			ks = append(ks, g.rbytes(192+g.IntN(400), true))
 		default:
 			ks = append(ks, g.rbytes(1+g.IntN(60), true))
 		}
